@@ -7,7 +7,7 @@ mkdir -p bin evidence replays
 (cd tools/vinstr && go build -o ../../bin/vinstr .)
 tools/gen/run.sh >/dev/null
 # warm the build cache: instrument the current tree and build every harness group once
-for g in nsqdx lookupx adminx; do
+for g in nsqdx lookupx adminx ntfx relayx; do
   S=$(mktemp -d /dev/shm/verif-setup-XXXXXX)
   ./build.sh $g "$S" || { rm -rf "$S"; echo "setup: build of $g failed"; exit 1; }
   rm -rf "$S"
